@@ -35,6 +35,11 @@ fn rel_err(a: &[f64], b: &[f64]) -> f64 {
 }
 
 /// Reference step in the original space (Euclidean) or whitened space (ExactNormal / ESH).
+thread_local! {
+    /// largest cancellation factor met by the closed-form ESH updates of the reference since it was last reset
+    static ESH_AMPLIFICATION: std::cell::Cell<f64> = const { std::cell::Cell::new(0.0) };
+}
+
 fn reference_step(
     setup: &Setup,
     f: &Mat,
@@ -88,6 +93,12 @@ fn reference_step(
                     .map(|i| ghat[i] * (1.0 - zeta) * (1.0 + zeta + alpha * (1.0 - zeta)) + 2.0 * zeta * u[i])
                     .collect();
                 let rn = norm(&raw);
+                // both terms of the raw update cancel when the momentum is almost opposite to the gradient: rounding
+                // errors of either term are amplified by (size of the terms) / |raw| before the renormalisation
+                // (the rounding error of alpha = p . g/|g| enters with the factor (1 - zeta)^2, which is large for
+                // backward steps)
+                let amp = (1.0 + ((1.0 - zeta) * (1.0 + zeta + alpha * (1.0 - zeta))).abs() + 2.0 * zeta + (1.0 - zeta) * (1.0 - zeta)) / rn.max(1e-300);
+                ESH_AMPLIFICATION.with(|a| a.set(a.get().max(amp)));
                 raw.iter().map(|x| x / rn).collect()
             };
             let sq = (d as f64).sqrt();
@@ -223,15 +234,23 @@ fn check_case(report: &mut Report, case: &Case, verbose: bool) {
             if !same {
                 report.violation(sig("initial_velocity_not_refreshed_vector"), "velocity at trajectory start differs from the drawn momentum".to_string(), replay.clone());
             }
+            ESH_AMPLIFICATION.with(|a| a.set(0.0));
             let (xr, vr) = reference_step(setup, &f, &c, &finv, &setup.start, &case.momentum, eps);
+            let esh_amp = ESH_AMPLIFICATION.with(|a| a.get());
             let ex = rel_err(&end.position, &xr);
             let ev = rel_err(&end.velocity, &vr);
-            let tol = 1e-9;
-            if !(ex <= tol) {
-                report.violation(sig("position_vs_reference"), format!("forward={forward} rel err {ex:e} eps {eps}"), replay.clone());
+            // conditioning of the step itself (stiff densities; the ESH update when the momentum is almost opposite to
+            // the gradient): how much a relative perturbation of 1e-9 of the inputs moves the reference result
+            let xp: Vec<f64> = setup.start.iter().enumerate().map(|(i, x)| x * (1.0 + if i % 2 == 0 { 1e-9 } else { -1e-9 })).collect();
+            let vp: Vec<f64> = case.momentum.iter().enumerate().map(|(i, x)| x * (1.0 + if i % 2 == 0 { -1e-9 } else { 1e-9 })).collect();
+            let (xr2, vr2) = reference_step(setup, &f, &c, &finv, &xp, &vp, eps);
+            let (ax, av) = (rel_err(&xr2, &xr) / 1e-9, rel_err(&vr2, &vr) / 1e-9);
+            let (tol_x, tol_v) = (1e-9 + 500.0 * f64::EPSILON * (ax + esh_amp), 1e-9 + 500.0 * f64::EPSILON * (av + esh_amp));
+            if !(ex <= tol_x) {
+                report.violation(sig("position_vs_reference"), format!("forward={forward} rel err {ex:e} (tolerance {tol_x:e}) eps {eps}"), replay.clone());
             }
-            if !(ev <= tol) {
-                report.violation(sig("velocity_vs_reference"), format!("forward={forward} rel err {ev:e} eps {eps}"), replay.clone());
+            if !(ev <= tol_v) {
+                report.violation(sig("velocity_vs_reference"), format!("forward={forward} rel err {ev:e} (tolerance {tol_v:e}) eps {eps}"), replay.clone());
             }
             if end.index_in_trajectory != if forward { 1 } else { -1 } {
                 report.violation(sig("index"), format!("index {} after one step forward={forward}", end.index_in_trajectory), replay.clone());
